@@ -376,13 +376,14 @@ PROPS['C03']['level_text'] = PROPS['C03']['level_text'].replace('NOT proved:', _
 PROPS['C15'].update({
     'level': 'other',
     'units': ['poly_lp'],
-    'technique': 'Verus contract on the extracted control flow of Polytope::remove_redundant_row_constraints / is_feasible with the LP solver and the row filter as uninterpreted oracles (a row is dropped only under an Optimal certificate, Infeasible gives the empty polytope of the INPUT dimension, an LP Error is passed on) + bounded replay (bc cleanup) of the point-set contracts of all clean-ups',
+    'technique': 'Verus contract on the extracted control flow of Polytope::remove_redundant_row_constraints / is_feasible / remove_duplicate_rows with the LP solver and the row filter as uninterpreted oracles (a row is dropped only under an Optimal certificate, Infeasible gives the empty polytope of the INPUT dimension, an LP Error is passed on) + bounded replay (bc cleanup) of the point-set contracts of all clean-ups',
     'level_text': ('Mixed. PROVED (Verus, for every answer of the LP oracle): remove_redundant_row_constraints returns either Err - only when an LP call returned Error (never swallowed) -, or the canonical empty polytope of the input dimension - only when an LP call answered Infeasible -, '
-                   'or the input with a strictly descending list of rows removed, each removed only on an Optimal answer (objective -row, over the rows not yet dropped) whose value row.point <= bias + eps; an Unbounded answer keeps the row; the ambient dimension never changes; is_feasible is false exactly on an Infeasible answer. '
-                   'BOUNDED only (bc cleanup, exact Fourier-Motzkin oracle): that these certificates mean redundancy (soundness of the LP answer), remove_tautologies / remove_zero_rows / remove_duplicate_rows / normalize (closure pipelines): point set kept, rows only dropped, no row implied with a margin left. ' + PROPS['C15']['level_text']),
+                   'or the input with a strictly descending list of rows removed, each removed only on an Optimal answer (objective -row, over the rows not yet dropped) whose value row.point <= bias + eps; an Unbounded answer keeps the row; the ambient dimension never changes; is_feasible is false exactly on an Infeasible answer. remove_duplicate_rows (normalization and approx::relative_eq as oracles): the result is the input minus a strictly descending list of rows that contains EXACTLY the rows for which an earlier row is relative-equal after normalization - row 0 and the first row of every group of duplicates are kept, no other row is dropped. '
+                   'BOUNDED only (bc cleanup, exact Fourier-Motzkin oracle): that these certificates mean redundancy (soundness of the LP answer), remove_tautologies / remove_zero_rows / normalize (closure pipelines) and the point-set meaning of remove_duplicate_rows: point set kept, rows only dropped, no row implied with a margin left. ' + PROPS['C15']['level_text']),
     'assumptions': ASSUME_COMMON + ASSUME_ND + PROPS['C15']['assumptions'] + [
         'unit poly_lp: Polytope::solve_linprog (LP solver, C10) and remove_rows (closure pipeline; ASSUMED to keep the ambient dimension) are uninterpreted oracles; `self.mat.row(i).to_owned()`, `self.bias[i]`, `-costs.clone()`, `costs.dot(&point)`, `bound + f64::EPSILON`, `redundant.clone()` are named spec-level helpers; `for idx in (0..n).rev()` is the descending while loop; the comparison is fle (f64 <=)',
         'the loop invariant of remove_redundant_row_constraints states the certificate property itself and is classified contract-level (`//@loop 1 contract`)',
+        'remove_duplicate_rows: verified for A = f64 (the trait bounds DivAssign + Sum + RelativeEq of the impl block are dropped); `self.clone().normalize()` and the two approx::relative_eq calls (matrix row and bias, folded into one helper rows_rel_eq) are uninterpreted oracles; `for i in (0..n).rev()` / `for j in (0..i).rev()` are descending while loops; remove_rows as above',
     ],
 })
 
